@@ -34,14 +34,30 @@ def pixel_input(case):
 
     scale = case.get("scale", 1)
 
+    idt = np.dtype(case.get("id_dtype", "int64"))     # dtype of the bin-ID columns handed in (the IDs fit)
+    labels = case.get("labels", "default")            # row labels of the frames: 0..k-1, a permutation of them, or shifted
+    import random as _random
+
     def frame(rows):
-        d = {"bin1_id": np.array([r[0] for r in rows], dtype=np.int64),
-             "bin2_id": np.array([r[1] for r in rows], dtype=np.int64)}
+        d = {"bin1_id": np.array([r[0] for r in rows], dtype=idt),
+             "bin2_id": np.array([r[1] for r in rows], dtype=idt)}
         for k, name in enumerate(cols):
             d[name] = np.array([r[2 + k] for r in rows], dtype=np.int64)
             if scale != 1:
                 d[name] = d[name].astype(np.float64) / scale          # exact multiples of 1/scale
-        return pd.DataFrame(d)
+        f = pd.DataFrame(d)
+        if labels == "perm":
+            lab = list(range(len(f)))
+            _random.Random(len(f) * 31 + case.get("shuffle_seed", 0)).shuffle(lab)
+            f.index = lab
+        elif labels == "offset":
+            f.index = f.index + 1000
+        return f
+
+    def unsorted(rows):
+        rows = list(rows)
+        _random.Random(len(rows) * 17 + case.get("shuffle_seed", 0)).shuffle(rows)
+        return rows
 
     if form == "frame":
         return frame(px), {}
@@ -59,6 +75,15 @@ def pixel_input(case):
         return iter([{k: v.values for k, v in frame(c).items()} for c in split(px, case["chunks"])]), {"ordered": True}
     if form == "list":
         return [frame(c) for c in split(px, case["chunks"])], {"ordered": True}
+    if form in ("iter_unsorted", "iter_dict_unsorted"):
+        # chunks in order, the records WITHIN each chunk in any order: create() is asked to sort them (ensure_sorted), with
+        # the other per-chunk checks switched on or off
+        chk = case.get("checks", [True, True, True])
+        kw = {"ordered": True, "ensure_sorted": True, "boundscheck": chk[0], "triucheck": chk[1], "dupcheck": chk[2]}
+        fr = [frame(unsorted(c)) for c in split(px, case["chunks"])]
+        if form == "iter_dict_unsorted":
+            fr = [{k: v.values for k, v in f.items()} for f in fr]
+        return iter(fr), kw
     if form == "array":
         from cooler.create import ArrayLoader
         a = np.zeros((n, n), dtype=np.int64 if scale == 1 else np.float64)
